@@ -1,10 +1,86 @@
-From LC Require Import System.
+(* C11 — Per-peer sync state machine follows its diagram for every event order.
+   Model: Model/System.v.  The four PeerState transition functions are the only way the model
+   moves a connected peer (besides re-initialisation on connect), so the diagram is a statement
+   about them; the per-event theorems cover what each handler may do to the proof. *)
+From Coq Require Import NArith List.
+From LC Require Import System LastStateProofProofs SystemProofs.
+Import ListNotations.
 Open Scope N_scope.
-Theorem C11_placeholder : forall s now, t_request_last_state s now = None -> get_rq s <> None \/ exists w, s = ReqFirstLS w \/ exists ls ps, s = ReqNewLS ls ps w.
-Proof. intros s now. destruct s; cbn; try discriminate; intros _.
- - right. exists when. left. reflexivity.
- - left. discriminate.
- - right. exists when. right. eauto.
- - left. discriminate.
+
+(* every transition function moves along an edge of the documented diagram (SystemProofs.edge) *)
+Theorem C11_diagram :
+  forall s s',
+    (exists now, t_request_last_state s now = Some s') \/
+    (exists ls, t_receive_last_state s ls = Some s') \/
+    (exists rq now, t_request_proof s rq now = Some s') \/
+    (exists ps, t_receive_proof s ps = Some s') ->
+    edge s s'.
+Proof.
+  intros s s' [[now H]|[[ls H]|[[rq [now H]]|[ps H]]]].
+  - eapply t_request_last_state_edge; eauto.
+  - eapply t_receive_last_state_edge; eauto.
+  - eapply t_request_proof_edge; eauto.
+  - eapply t_receive_proof_edge; eauto.
 Qed.
-Print Assumptions C11_placeholder.
+Print Assumptions C11_diagram.
+
+(* a proof is accepted only while a proof request for that same last state is outstanding; the only
+   other way this handler gives the peer a proof is a copy of an identical, already proven header *)
+Theorem C11_proof_needs_request :
+  forall sy now tau p ml pe hs mmr cts sy' acts s s',
+    on_proof sy now tau p ml pe hs mmr cts = Ok (sy', acts) ->
+    find_peer p (peers sy) = Some s -> find_peer p (peers sy') = Some s' ->
+    get_ps s' <> get_ps s ->
+    (exists rq r sc l lasts,
+        get_rq s = Some rq /\ same_vheader (pr_last rq) ml = Ok true /\
+        gates (last_n_cfg sy) tau (get_ps s) rq ml hs mmr r sc l false /\
+        get_ps s' = Some (mkPS (pr_last rq) (map key_of (firstn (N.to_nat r) hs)) lasts))
+    \/ (exists ps others, find_proved ml others = Some ps /\ get_ps s' = Some ps).
+Proof. exact on_proof_needs_request. Qed.
+Print Assumptions C11_proof_needs_request.
+
+(* a last-state update never discards an existing proof *)
+Theorem C11_last_state_keeps_proof :
+  forall sy now p h fresh cts sy' acts s ps,
+    on_last_state sy now p h fresh cts = Ok (sy', acts) ->
+    find_peer p (peers sy) = Some s -> get_ps s = Some ps ->
+    exists s' ps', find_peer p (peers sy') = Some s' /\ get_ps s' = Some ps'.
+Proof. exact on_last_state_keeps_proof. Qed.
+Print Assumptions C11_last_state_keeps_proof.
+
+(* an unanswered request or an unchanged last state older than the message timeout puts the peer
+   into the disconnect set of the next refresh *)
+Theorem C11_timeout_disconnects :
+  forall sy now cts p s,
+    In (p, s) (peers sy) -> timed_out s now = true ->
+    In (A_disconnect p) (snd (on_tick sy now cts)).
+Proof. exact tick_disconnects_timeouts. Qed.
+Print Assumptions C11_timeout_disconnects.
+
+(* what "timed out" means *)
+Theorem C11_timed_out_spec :
+  forall s now,
+    timed_out s now = true <->
+    (exists w, when_sent s = Some w /\ w + MESSAGE_TIMEOUT < now) \/
+    (exists ls, get_ls s = Some ls /\ ls_ts ls + MESSAGE_TIMEOUT < now).
+Proof.
+  intros s now. unfold timed_out. split.
+  - destruct (when_sent s) as [w|].
+    + destruct (N.ltb_spec (w + MESSAGE_TIMEOUT) now) as [Hw|Hw]; [intros _; left; eauto|].
+      destruct (get_ls s) as [ls|]; [|discriminate]. intros H. right. exists ls. split; [reflexivity | apply N.ltb_lt; exact H].
+    + destruct (get_ls s) as [ls|]; [|discriminate]. intros H. right. exists ls. split; [reflexivity | apply N.ltb_lt; exact H].
+  - intros [[w [W L]]|[ls [G L]]].
+    + rewrite W. rewrite (proj2 (N.ltb_lt _ _) L). reflexivity.
+    + rewrite G. destruct (when_sent s) as [w|]; [destruct (_ <? now); [reflexivity|]|]; apply N.ltb_lt; exact L.
+Qed.
+Print Assumptions C11_timed_out_spec.
+
+(* a disconnected peer leaves no state behind and nothing else changes *)
+Theorem C11_remove_clean :
+  forall sy now tau p sy' acts,
+    NoDup (keys (peers sy)) ->
+    step sy now tau (EvDisconnect p) = Ok (sy', acts) ->
+    find_peer p (peers sy') = None /\ acts = [] /\ sstore sy' = sstore sy /\
+    forall q, q <> p -> find_peer q (peers sy') = find_peer q (peers sy).
+Proof. exact disconnect_removes. Qed.
+Print Assumptions C11_remove_clean.
